@@ -304,6 +304,7 @@ func dumpCtx(ctx *app.RequestContext) []string {
 	})
 	ctx.Response.Header.Del("x-probe-lower")
 	ctx.Response.Header.Del("X-Probe-Lower")
+	out = append(out, fmt.Sprintf("Keys is nil: %v", ctx.Keys == nil))
 	out = append(out, fmt.Sprintf("Params=%v Keys=%d Errors=%d IsAborted=%v FullPath=%q Index=%d", ctx.Params, len(ctx.Keys), len(ctx.Errors), ctx.IsAborted(), ctx.FullPath(), ctx.GetIndex()))
 	var keys []string
 	ctx.ForEachKey(func(k string, v interface{}) { keys = append(keys, k) })
@@ -405,6 +406,7 @@ func RunC09(ep *core.Episode) {
 	nd := 1 + ndv%3
 	keepCopy := ndv >= 3
 	var savedCopies []*app.RequestContext
+	var savedKeys []map[string]interface{}
 	outcomes := []string{"ok", "ok", "ok", "panic", "malformed", "toolarge", "rst-body", "fin-header", "close", "abort", "write-error", "hijack", "hijack-write-error", "chunked-writer", "stream-close-error"}
 	var dirtyCtx *app.RequestContext
 	var ranMutators []string
@@ -488,6 +490,9 @@ func RunC09(ep *core.Episode) {
 			}()
 		}
 		ctx.Set("dirty-key", d)
+		if keepCopy {
+			savedKeys = append(savedKeys, ctx.Keys) // the map a handler passes on to work that outlives the request
+		}
 		ctx.Error(fmt.Errorf("dirty err"))
 		switch ocs[d] {
 		case "panic":
@@ -527,6 +532,11 @@ func RunC09(ep *core.Episode) {
 		// the owner of a copy taken during an earlier request edits its copy while the recycled context serves the probe
 		for _, c := range savedCopies {
 			c09Scribble(c)
+		}
+		for _, m := range savedKeys {
+			if m != nil {
+				m["written-by-leftover-work"] = 1
+			}
 		}
 	}
 	conn := srv.Connect("d1")
